@@ -135,6 +135,8 @@ func genMerge(r *Rand) Input {
 	n := r.Range(0, 14)
 	base := uint64(r.Intn(1000))
 	seen := map[[3]uint64]FDuty{}
+	tags := map[string]bool{}
+	tiny := r.Chance(1, 6)
 	var ds []FDuty
 	for i := 0; i < n; i++ {
 		d := FDuty{Slot: base + uint64(r.Intn(4)), Val: uint64(r.Intn(12)), Comm: uint64(r.Intn(3)), VCI: uint64(r.Intn(100))}
@@ -148,11 +150,36 @@ func genMerge(r *Rand) Input {
 				d.CLen += uint64(r.Intn(3))
 				d.CAS += uint64(r.Intn(3))
 			}
+			// Round 7: the edges of the legal ranges.  The last seat of a committee (position =
+			// length-1, always so in a one-member committee of a tiny network), the first seat, and
+			// the last committee of the slot (committee = committees-1) are all legal duties.
+			switch {
+			case tiny:
+				d.CLen = uint64(r.Range(1, 3))
+				d.VCI = uint64(r.Intn(int(d.CLen)))
+				d.CAS = 3
+				tags["merge-tiny-committee"] = true
+			case r.Chance(1, 4):
+				d.VCI = d.CLen - 1
+				tags["merge-last-seat"] = true
+			case r.Chance(1, 6):
+				d.VCI = 0
+			}
+			if !tiny && r.Chance(1, 6) {
+				d.CAS = d.Comm + 1
+				tags["merge-last-committee"] = true
+			}
 			seen[k] = d
 		}
 		ds = append(ds, d)
 	}
-	return Input{Kind: "merge", Merge: ds, Tags: []string{"merge"}}
+	tl := []string{"merge"}
+	for _, t := range []string{"merge-tiny-committee", "merge-last-seat", "merge-last-committee"} {
+		if tags[t] {
+			tl = append(tl, t)
+		}
+	}
+	return Input{Kind: "merge", Merge: ds, Tags: tl}
 }
 
 // ---------------------------------------------------------------------------------------------
